@@ -25,8 +25,10 @@ class ctt_to_tokens:
     lets = dict(p="1 if self.pre else 0", i="1 if self.intra else 0", q="1 if self.post else 0")
     ensures = {
         "C06.coord.CTT.len": "len(result) == 2 + p + i + q",
-        "C06.coord.CTT.numbers": "result[p] == str(coord[0]) and result[p + 1 + i] == str(coord[1])",
-        "C06.coord.CTT.delimiters": "((result[0] == VOCAB.COORD_PRE) if self.pre else True) and ((result[p + 1] == VOCAB.COORD_INTRA) if self.intra else True) and ((result[p + i + 2] == VOCAB.COORD_POST) if self.post else True)",
+        # (each clause first restates the length: with a wrong length the clause is false instead of indexing past the end)
+        "C06.coord.CTT.numbers": "len(result) == 2 + p + i + q and result[p] == str(coord[0]) and result[p + 1 + i] == str(coord[1])",
+        "C06.coord.CTT.delimiters": "len(result) == 2 + p + i + q and ((result[0] == VOCAB.COORD_PRE) if self.pre else True) and ((result[p + 1] == VOCAB.COORD_INTRA) if self.intra else True)"
+        " and ((result[p + i + 2] == VOCAB.COORD_POST) if self.post else True)",
     }
     result = T.ListT(T.Str)
     props = ["C06"]
